@@ -29,7 +29,7 @@ TS4 = (6, 5, 7, 6)
 TS5 = (2, 6, 3000, 7)
 BASE = 0x1000
 BAD = 9999            # sentinel for "not decodable"
-CASE_TIMEOUT = 30
+CASE_TIMEOUT = 120
 MAX_CALLS = 2000      # run_ocr calls per process_lines call before the case is declared non-terminating
 
 
@@ -234,7 +234,7 @@ def project_line(text, lg, coords, transformer, base_off=0):
                 res["lruns"] = _runs([img, col - SUB * g, nz, wts[:, 4], wts[:, 5]], a)
             else:
                 res["lk"] = 2
-        dig = zlib.crc32(np.round(win, 9).tobytes(), dig)
+        dig = zlib.crc32(np.ascontiguousarray(wts).tobytes(), dig)      # recovered integer weights: robust to 1-ulp differences of np.log
     elif arr is not None:
         res["lk"] = 2
     res["dig"] = int(dig & 0x7FFFFFFF)
